@@ -124,19 +124,20 @@ Lemma dispatch_cases W lease s w c :
     (deliveries os = [] \/
      exists p, deliveries os = [(p, w_epoch w, w_seq w)] /\ c = CApp p /\ w_epoch w <> 0))).
 Proof.
-  unfold dispatch.
+  unfold dispatch, omark, mark.
   destruct c as [p | level desc | | pushok retr | | | ].
   - destruct (w_epoch w =? 0) eqn:E; cbn; dc_fin.
     right. repeat split; auto. right. exists p. repeat split; auto. lia.
-  - destruct ((level =? alert_fatal) || (desc =? desc_close_notify));
+  - destruct (w_epoch w =? 0) eqn:E;
+      destruct ((level =? alert_fatal) || (desc =? desc_close_notify));
       destruct (desc =? desc_close_notify); cbn; dc_fin.
   - destruct (negb (r_init s)).
     + destruct (enqueue_spec lease s w) as [(H1 & H2 & H3 & H4 & H5 & H6) [Hq | (Hq & Hl & _)]];
         cbn [marks deliveries]; rewrite ?Hq, ?app_length; cbn [length]; unfold max_queue in *; dc_fin.
-    + destruct (r_epoch s + 1 =? w_epoch w + 1); cbn; dc_fin.
-  - destruct pushok; cbn; dc_fin.
+    + destruct (w_epoch w =? 0) eqn:E; destruct (r_epoch s + 1 =? w_epoch w + 1); cbn; dc_fin.
+  - destruct (w_epoch w =? 0) eqn:E; destruct pushok; cbn; dc_fin.
   - destruct (w_epoch w =? 0); cbn; dc_fin.
-  - destruct ((w_epoch w =? 0) || negb (r_rrc s)); cbn; dc_fin.
+  - destruct (w_epoch w =? 0) eqn:E; destruct (negb (r_rrc s)); cbn; dc_fin.
   - destruct ((w_epoch w =? 0) || (w_ctype w =? ct_ccs)); cbn; dc_fin.
 Qed.
 
